@@ -502,3 +502,177 @@ func classifyLeavesIP(f *ssa.Function, facts *Facts, pc partCtx, atBlock *ssa.Ba
 	}
 	return out
 }
+
+// ---------------------------------------------------------------------------
+// error accumulation: errs = append(errs, wrapped); ...; return aggregate(errs)
+
+// isErrAggregator: fn takes one slice of errors and returns an error that can be nil
+// only where the slice is known to be empty (goaterr.ToError; computed, not listed).
+var aggMemo = map[*ssa.Function]int{}
+
+func isErrAggregator(fn *ssa.Function) bool {
+	if fn == nil || fn.Blocks == nil || len(fn.Params) != 1 || fn.Signature.Results().Len() != 1 || !isErrorType(fn.Signature.Results().At(0).Type()) {
+		return false
+	}
+	sl, ok := fn.Params[0].Type().Underlying().(*types.Slice)
+	if !ok || !isErrorType(sl.Elem()) {
+		return false
+	}
+	if r, ok := aggMemo[fn]; ok {
+		return r == 1
+	}
+	aggMemo[fn] = 2
+	facts := factsFor(fn)
+	p := fn.Params[0]
+	emptyIn := func(fs factSet) bool {
+		for k := range fs {
+			bo, ok := k.v.(*ssa.BinOp)
+			if !ok {
+				continue
+			}
+			lc, ok := bo.X.(*ssa.Call)
+			if !ok {
+				continue
+			}
+			if b, ok := lc.Call.Value.(*ssa.Builtin); !ok || b.Name() != "len" || lc.Call.Args[0] != ssa.Value(p) {
+				continue
+			}
+			kv, ok := constInt(bo.Y)
+			if !ok {
+				continue
+			}
+			if (bo.Op == token.EQL && k.pol && kv == 0) || (bo.Op == token.NEQ && !k.pol && kv == 0) || (bo.Op == token.GTR && !k.pol && kv == 0) || (bo.Op == token.LSS && k.pol && kv == 1) {
+				return true
+			}
+		}
+		return false
+	}
+	for _, r := range returnsOf(fn) {
+		v := resolve(r.Results[0])
+		if isNonNilErrValue(v, 0) {
+			continue
+		}
+		// an element of the slice: non-nil as long as only non-nil errors are collected (checked at the appends)
+		if u, ok := v.(*ssa.UnOp); ok && u.Op == token.MUL {
+			if ia, ok := u.X.(*ssa.IndexAddr); ok && ia.X == ssa.Value(p) {
+				continue
+			}
+		}
+		if mi, ok := v.(*ssa.MakeInterface); ok {
+			if _, isAlloc := mi.X.(*ssa.Alloc); isAlloc {
+				continue
+			}
+		}
+		if facts.HoldsOnAllEdges(r.Block(), emptyIn) {
+			continue
+		}
+		return false
+	}
+	aggMemo[fn] = 1
+	return true
+}
+
+// collectedWhenFailing: slice value s holds at least one (non-nil) error whenever errVal is
+// non-nil: it is an append of a non-nil error, or a join each of whose edges either knows
+// errVal == nil or brings such a slice.
+func collectedWhenFailing(f *ssa.Function, errVal, s ssa.Value, depth int, seen map[ssa.Value]bool) bool {
+	if depth > 12 {
+		return false
+	}
+	s = resolve(s)
+	facts := factsFor(f)
+	switch x := s.(type) {
+	case *ssa.Call:
+		if b, ok := x.Call.Value.(*ssa.Builtin); ok && b.Name() == "append" && len(x.Call.Args) == 2 {
+			// append(base, elems...): the variadic slice literal carries the elements
+			if elemsNonNil(facts, x) {
+				return true
+			}
+			return false
+		}
+	case *ssa.Phi:
+		if seen[s] {
+			return true
+		}
+		seen[s] = true
+		for i, e := range x.Edges {
+			fs := factsOnEdge(facts, x.Block().Preds[i], x.Block())
+			if knownNilIn(fs, errVal, true) {
+				continue
+			}
+			// the predecessor may itself only be reachable with errVal == nil
+			if facts.HoldsOnAllEdges(x.Block().Preds[i], func(fs factSet) bool { return knownNilIn(fs, errVal, true) }) {
+				continue
+			}
+			if !collectedWhenFailing(f, errVal, e, depth+1, seen) {
+				return false
+			}
+		}
+		return true
+	}
+	return false
+}
+
+// elemsNonNil: every element appended by this append call is an error known non-nil there.
+func elemsNonNil(facts *Facts, app *ssa.Call) bool {
+	sl, ok := app.Call.Args[1].(*ssa.Slice)
+	if !ok {
+		return false
+	}
+	arr, ok := sl.X.(*ssa.Alloc)
+	if !ok {
+		return false
+	}
+	n := 0
+	for _, r := range *arr.Referrers() {
+		ia, ok := r.(*ssa.IndexAddr)
+		if !ok {
+			continue
+		}
+		for _, r2 := range *ia.Referrers() {
+			if st, ok := r2.(*ssa.Store); ok && st.Addr == ssa.Value(ia) {
+				n++
+				v := resolve(st.Val)
+				if !(isNonNilErrValue(v, 0) || facts.KnownNil(app.Block(), v, false)) {
+					return false
+				}
+			}
+		}
+	}
+	return n > 0
+}
+
+// accumulatedAndReported: errVal is never lost: every return of f either knows errVal == nil,
+// returns a known non-nil error, or returns aggregate(s) with s collecting on errVal's failure.
+func accumulatedAndReported(f *ssa.Function, errVal ssa.Value) bool {
+	facts := factsFor(f)
+	def, _ := errVal.(ssa.Instruction)
+	if ex, ok := errVal.(*ssa.Extract); ok {
+		def, _ = ex.Tuple.(ssa.Instruction)
+	}
+	any := false
+	for _, r := range returnsOf(f) {
+		if def != nil && !reachableFrom(def, r) {
+			continue
+		}
+		if len(r.Results) == 0 {
+			return false
+		}
+		if facts.HoldsOnAllEdges(r.Block(), func(fs factSet) bool { return knownNilIn(fs, errVal, true) }) {
+			continue
+		}
+		v := resolve(r.Results[len(r.Results)-1])
+		if isNonNilErrValue(v, 0) || facts.KnownNil(r.Block(), v, false) {
+			continue
+		}
+		call, ok := v.(*ssa.Call)
+		if !ok || !isErrAggregator(call.Call.StaticCallee()) {
+			return false
+		}
+		if !collectedWhenFailing(f, errVal, call.Call.Args[0], 0, map[ssa.Value]bool{}) {
+			return false
+		}
+		any = true
+	}
+	return any
+}
